@@ -203,11 +203,33 @@ func (r *Run) callersExactly(rule, key string, edges []*Edge, allowed []string) 
 		allow[a] = true
 	}
 	seen := map[string]*Edge{}
-	for _, e := range edges {
+	// a caller that is a helper introduced by a refactoring (absent from the pinned tree) stands for its own
+	// callers: extracting statements of a vetted caller into a new function does not create a new caller
+	var lift func(e *Edge, depth int)
+	lift = func(e *Edge, depth int) {
+		c := e.Caller
+		for c.Parent() != nil && r.P.isNewHelper(c) {
+			c = c.Parent()
+		}
+		if depth < 4 && r.P.isNewHelper(c) {
+			ins := r.P.CG().In[c]
+			if len(ins) > 0 {
+				for _, up := range ins {
+					lift(&Edge{Caller: up.Caller, Site: up.Site, Callee: e.Callee, Kind: e.Kind, Label: e.Label}, depth+1)
+				}
+				return
+			}
+		}
 		n := short(e.Caller.String())
+		if c != e.Caller && depth > 0 {
+			n = short(c.String())
+		}
 		if _, ok := seen[n]; !ok {
 			seen[n] = e
 		}
+	}
+	for _, e := range edges {
+		lift(e, 0)
 	}
 	var names []string
 	for n := range seen {
